@@ -26,7 +26,7 @@ class Run:
     def __init__(self, pid, tier, level="model_checking"):
         self.pid, self.tier, self.level = pid, tier, level
         self.t0 = time.time()
-        self.deadline = self.t0 + (float(os.environ.get("VERIF_DEADLINE_S", "0")) or (540 if tier == "quick" else 5400))
+        self.deadline = self.t0 + (float(os.environ.get("VERIF_DEADLINE_S", "0")) or (1500 if tier == "quick" else 7200))
         self.cov = {"states": 0, "transitions": 0, "traces_validated_against_impl": 0, "evaluations": 0,
                     "distinct_nontrivial": 0, "samples": [], "exhaustive": True, "phases": {}, "builds": {}}
         self.violations = []
